@@ -131,7 +131,9 @@ def apply_fault(lines: List[str], i: int, fault: str, variant: int) -> List[str]
     elif fault == 'bad_ref_operator':
         new[i] = re.sub(r' (<>|>|<|-) ', [' => ', ' >> ', ' ~ '][variant % 3], ln, count=1)
     elif fault == 'bad_action':
-        new[i] = re.sub(r'\b(update|delete): [a-z]+( [a-z]+)?', r'\1: zzz', ln, count=1)
+        # an unknown word, real actions with their blank removed / replaced, a real action with a tail, half an action
+        bad = ['zzz', 'setnull', 'noaction', 'setdefault', 'cascading', 'set', 'no_action', 'set-null'][variant % 8]
+        new[i] = re.sub(r'\b(update|delete): [a-z]+( [a-z]+)?', r'\1: ' + bad, ln, count=1)
     elif fault == 'bad_colour':
         new[i] = re.sub(r'#[0-9a-fA-F]+', ['#ab', '#abcd', '#ggg', '#abcdefa', '#12345', '#'][variant % 6], ln, count=1)
     elif fault == 'delete_open_bracket':
@@ -193,7 +195,7 @@ def main(argv: List[str]) -> int:
             for fault in FAULTS:
                 if i >= len(lines) and fault not in ('illegal_char_line', 'stray_identifier_line', 'stray_comma_line'):
                     continue
-                for variant in range(4 if fault in ('duplicate_open_bracket', 'duplicate_close_bracket') else 3 if fault in ('illegal_char_line', 'bad_colour', 'bad_ref_operator', 'text_after_close_brace', 'unknown_setting') else 1):
+                for variant in range(8 if fault == 'bad_action' else 4 if fault in ('duplicate_open_bracket', 'duplicate_close_bracket') else 3 if fault in ('illegal_char_line', 'bad_colour', 'bad_ref_operator', 'text_after_close_brace', 'unknown_setting') else 1):
                     try:
                         new = apply_fault(lines + ([''] if i >= len(lines) else []), i, fault, variant + (seed if fault != 'unknown_setting' else 0))
                     except (ValueError, AttributeError, ZeroDivisionError):
